@@ -476,6 +476,22 @@ theorem mono_batchLoop (hg : InjMono inj) (fuel : Nat) : ∀ s, Mono s (Backend.
       · exact f1.trans p
       · exact (f1.trans p).trans ((hg _ 4).trans (ih _))
 
+theorem mono_preEraseFlush (s : BSt) : Mono s (Backend.preEraseFlush s) := by
+  unfold Backend.preEraseFlush
+  split
+  · exact (slol_flushSinks _).mono
+  · exact Mono.refl _
+
+theorem mono_flushGate (hg : InjMono inj) (s : BSt) (n : Nat) : Mono s (Backend.flushGate inj s n) := by
+  unfold Backend.flushGate
+  split
+  · exact (slol_flushSinks _).mono
+  · simp only []
+    split
+    · exact (hg s 7).trans ((Mono.ofThs rfl (Nat.le_refl _) rfl :
+        Mono (inj s 7) { inj s 7 with lastFlush := (inj s 7).now }).trans (slol_flushSinks _).mono)
+    · exact hg s 7
+
 /-- what a poll does after its pass -/
 theorem mono_poll_tail (hg : InjMono inj) (s : BSt) : Mono (populate inj s).1 (Backend.poll inj s) := by
   unfold Backend.poll
@@ -485,10 +501,11 @@ theorem mono_poll_tail (hg : InjMono inj) (s : BSt) : Mono (populate inj s).1 (B
   · split
     · exact mono_processLowest hg s1
     · exact mono_batchLoop hg _ s1
-  · have a1 : Mono s1 (Backend.allEmpty (Backend.checkFailures inj (flushSinks (inj s1 5)))).1 :=
-      (((hg s1 5).trans (slol_flushSinks _).mono).trans (mono_checkFailures hg _)).trans (fr_allEmpty _).mono
+  · have a1 : Mono s1 (Backend.allEmpty (Backend.checkFailures inj
+        (Backend.flushGate inj (inj s1 5) (inj s1 5).cfg.flushInterval))).1 :=
+      (((hg s1 5).trans (mono_flushGate hg _ _)).trans (mono_checkFailures hg _)).trans (fr_allEmpty _).mono
     split
-    · exact (a1.trans (mono_cleanupContexts _)).trans (mono_cleanupLoggers hg _)
+    · exact (a1.trans (mono_cleanupContexts _)).trans ((mono_preEraseFlush _).trans (mono_cleanupLoggers hg _))
     · exact a1
 
 theorem mono_poll (hg : InjMono inj) (s : BSt) : Mono s (Backend.poll inj s) := by
@@ -501,10 +518,11 @@ theorem mono_poll (hg : InjMono inj) (s : BSt) : Mono s (Backend.poll inj s) := 
   · split
     · exact g1.trans (mono_processLowest hg s1)
     · exact g1.trans (mono_batchLoop hg _ s1)
-  · have a1 : Mono s1 (Backend.allEmpty (Backend.checkFailures inj (flushSinks (inj s1 5)))).1 :=
-      (((hg s1 5).trans (slol_flushSinks _).mono).trans (mono_checkFailures hg _)).trans (fr_allEmpty _).mono
+  · have a1 : Mono s1 (Backend.allEmpty (Backend.checkFailures inj
+        (Backend.flushGate inj (inj s1 5) (inj s1 5).cfg.flushInterval))).1 :=
+      (((hg s1 5).trans (mono_flushGate hg _ _)).trans (mono_checkFailures hg _)).trans (fr_allEmpty _).mono
     split
-    · exact g1.trans ((a1.trans (mono_cleanupContexts _)).trans (mono_cleanupLoggers hg _))
+    · exact g1.trans ((a1.trans (mono_cleanupContexts _)).trans ((mono_preEraseFlush _).trans (mono_cleanupLoggers hg _)))
     · exact g1.trans a1
 
 theorem mono_exitLoop (hg : InjMono inj) (tick : Nat) : ∀ (fuel : Nat) (s : BSt), Mono s (Backend.exitLoop inj tick fuel s)
@@ -515,7 +533,7 @@ theorem mono_exitLoop (hg : InjMono inj) (tick : Nat) : ∀ (fuel : Nat) (s : BS
     have a0 := (fr_allEmpty s).mono
     split
     · exact a0.trans ((((mono_checkFailures hg _).trans (slol_flushSinks _).mono).trans
-        (mono_cleanupContexts _)).trans (mono_cleanupLoggers hg _))
+        (mono_cleanupContexts _)).trans ((mono_preEraseFlush _).trans (mono_cleanupLoggers hg _)))
     · have t0 : Mono (Backend.allEmpty s).1 { (Backend.allEmpty s).1 with now := (Backend.allEmpty s).1.now + tick } :=
         Mono.ofThs rfl (Nat.le_add_right _ _) rfl
       have p0 := mono_populate hg { (Backend.allEmpty s).1 with now := (Backend.allEmpty s).1.now + tick }
